@@ -110,6 +110,9 @@ func (g *ExecutionGraph) cycleDfs(t string, visited map[string]bool) error {
 			return err
 		}
 	}
+	// only nodes on the current DFS path count: a node reached again over a
+	// second path (diamond) is not a cycle
+	visited[t] = false
 
 	return nil
 }
